@@ -515,6 +515,7 @@ class Executor:
         if pid == 0:
             try:
                 self.nfile += 500
+                self.nlink = getattr(self, 'nlink', 0) + 500
                 if self.files is not None:
                     self.files.reset_counts()
                     self.files.disarm()
